@@ -596,7 +596,13 @@ func runSvcWith(s SvcScript, shared *sharedcomponent.Map[*compCfg, *svcComp], sh
 	if s.Shared {
 		comp := e.comps["s"]
 		if comp == nil {
-			return true, key, vt.Failf("svc/shared-component-not-created", "the shared receiver's factory never created a component for this service")
+			var seen []string
+			for _, sg := range s.Signals {
+				k := instanceKey(component.KindReceiver, component.NewID(typS), []string{sg})
+				seen = append(seen, k+":["+statusSeqString(per[k])+"]")
+			}
+			return true, key, vt.Failf("svc/shared-component-not-created", "the shared receiver's factory never created (hence never started) a component for this service; its instances delivered %s",
+				strings.Join(seen, " "))
 		}
 		if comp.startCalls > 1 || comp.shutdownCall > 1 {
 			return true, key, vt.Failf("svc/shared-started-twice", "shared component started %d times, shut down %d times", comp.startCalls, comp.shutdownCall)
